@@ -16,6 +16,7 @@ import (
 	bhssql "github.com/bitcoin-sv/block-headers-service/database/sql"
 	"github.com/bitcoin-sv/block-headers-service/internal/chaincfg"
 	"github.com/bitcoin-sv/block-headers-service/internal/chaincfg/chainhash"
+	"github.com/bitcoin-sv/block-headers-service/metrics"
 	"github.com/bitcoin-sv/block-headers-service/repository"
 	"github.com/bitcoin-sv/block-headers-service/service"
 	peerpkg "github.com/bitcoin-sv/block-headers-service/transports/p2p/peer"
@@ -210,6 +211,13 @@ func (w *World) OpenWith(db *sqlx.DB) {
 		w.AfterNewServices(w)
 	}
 	srv := httpserver.NewHTTPServer(w.Cfg.HTTP, &w.Log)
+	if w.Cfg.Metrics.Enabled {
+		// as cmd/main.go: metrics are switched on once per process and registered before the routes
+		if _, on := metrics.Get(); !on {
+			metrics.EnableMetrics()
+		}
+		srv.ApplyConfiguration(metrics.Register)
+	}
 	srv.ApplyConfiguration(endpoints.SetupRoutes(w.Svc, w.Cfg.HTTP))
 	srv.ApplyConfiguration(func(e *gin.Engine) { w.Gin = e })
 	if w.AfterServices != nil {
